@@ -26,7 +26,7 @@ def run_one(m, with_tests=False):
             t = t.replace(ed["old"], ed["new"], ed.get("count", 1))
             open(p, "w").write(t)
         res = {"id": m["id"], "props": {}}
-        env = dict(os.environ, VERIF_REPO=dst)
+        env = dict(os.environ, VERIF_REPO=dst, VERIF_EVIDENCE_DIR=os.path.join(tmp, "ev"))          # evidence of a mutated tree is scratch
         if with_tests:
             r = subprocess.run(["cargo", "test", "--workspace", "--no-fail-fast", "--offline"], cwd=dst, env=dict(os.environ, CARGO_TARGET_DIR=os.path.join(tmp, "t")),
                                stdout=subprocess.PIPE, stderr=subprocess.STDOUT, text=True)
@@ -51,8 +51,14 @@ def run_one(m, with_tests=False):
 
 
 def main():
-    args = [a for a in sys.argv[1:] if not a.startswith("--")]
-    with_tests = "--tests" in sys.argv
+    argv = list(sys.argv[1:])
+    jobs = 1
+    if "-j" in argv:
+        i = argv.index("-j")
+        jobs = int(argv[i + 1])
+        del argv[i:i + 2]
+    args = [a for a in argv if not a.startswith("--")]
+    with_tests = "--tests" in argv
     ms = json.load(open(os.path.join(HERE, "selftest", "mutants.json")))
     if args:
         ms = [m for m in ms if m["id"] in args or any(m["id"].startswith(a) for a in args)]
@@ -61,11 +67,12 @@ def main():
     evdir = os.path.join(HERE, "evidence")
     saved = {f: open(os.path.join(evdir, f)).read() for f in os.listdir(evdir) if f.endswith(".json")}
     try:
-        for m in ms:
-            r = run_one(m, with_tests)
-            print(json.dumps(r))
-            if r["status"] != "OK":
-                bad += 1
+        from concurrent.futures import ThreadPoolExecutor
+        with ThreadPoolExecutor(max_workers=jobs) as ex:
+            for r in ex.map(lambda m: run_one(m, with_tests), ms):
+                print(json.dumps(r), flush=True)
+                if r["status"] != "OK":
+                    bad += 1
     finally:
         for f, t in saved.items():
             open(os.path.join(evdir, f), "w").write(t)
